@@ -157,7 +157,9 @@ def laws():
         return Case(raises=TypeError, thunk=lambda: S.solve_for_vector(sp.Eq(V.VectorDot(sy[0], sy[1]), k[0]), sy[0]))
 
     # ------------------------------------------------------------------ solve_for_scalar
-    SC = ["linear", "linear-dot-coefficients", "quadratic", "rational", "eq-form", "system-like"]
+    # radical-*: concrete equations whose squared form has an extraneous root (sympy must check candidates against the equation)
+    SC = ["linear", "linear-dot-coefficients", "quadratic", "rational", "eq-form", "system-like",
+          "radical-sqrt(x)=x-2", "radical-sqrt(2x+3)=x", "radical-sqrt(x+6)=x", "radical-sqrt(x-1)=x-3", "radical-k*sqrt(x)=k*(x-2)"]
 
     @law("solve_for_scalar/each-returned-equation-is-satisfied-by-its-solution", [(t,) for t in SC], ["solvers.solve_for_scalar"], backend="z3")
     def _(s, g):
@@ -170,6 +172,11 @@ def laws():
             "rational": k[0] / x - k[1],
             "eq-form": sp.Eq(k[0] * x + k[2], k[1] * x + k[3]),
             "system-like": sp.Eq(V.VectorNorm(sy[1]), V.VectorNorm(sy[2]) * x),
+            "radical-sqrt(x)=x-2": sp.Eq(sp.sqrt(x), x - 2),
+            "radical-sqrt(2x+3)=x": sp.Eq(sp.sqrt(2 * x + 3), x),
+            "radical-sqrt(x+6)=x": sp.Eq(sp.sqrt(x + 6), x),
+            "radical-sqrt(x-1)=x-3": sp.Eq(sp.sqrt(x - 1), x - 3),
+            "radical-k*sqrt(x)=k*(x-2)": sp.Eq(k[0] * sp.sqrt(x), k[0] * (x - 2)),
         }[s[0]]
         eqs = S.solve_for_scalar(f, x)
         if not eqs:
@@ -186,6 +193,23 @@ def laws():
         return Case(res, assume=assume)
 
     # ------------------------------------------------------------------ apply
+    BARE = ["dot(a,b)", "cross(a,b)", "mixed(a,b,c)", "norm(a)", "a+b", "k*a", "k0*dot(a,b)+k1", "a<b(relational-not-Eq)"]
+
+    @law("apply/bare-expression-is-the-left-hand-side-and-zero-the-right", [(t,) for t in BARE], ["solvers.apply"])
+    def _(s, g):
+        sy, env, k = setup(g)
+        a, b, c, d = sy[0], sy[1], sy[2], sy[3]
+        E = {"dot(a,b)": lambda: V.VectorDot(a, b), "cross(a,b)": lambda: V.VectorCross(a, b), "mixed(a,b,c)": lambda: V.VectorMixedProduct(a, b, c),
+             "norm(a)": lambda: V.VectorNorm(a), "a+b": lambda: a + b, "k*a": lambda: k[0] * a, "k0*dot(a,b)+k1": lambda: k[0] * V.VectorDot(a, b) + k[1],
+             "a<b(relational-not-Eq)": lambda: sp.Lt(k[0], k[1], evaluate=False)}[s[0]]()
+        vector_valued = s[0] in ("cross(a,b)", "a+b", "k*a")
+        seen = []
+        fn = (lambda e: (seen.append(e), V.VectorDot(e, d))[1]) if vector_valued else (lambda e: (seen.append(e), sp.Function("F")(e))[1])
+        r = S.apply(E, fn)
+        # the function is applied exactly to the expression itself and to zero, in that order, and the result is Eq(f(expr), f(0))
+        ok = isinstance(r, sp.Eq) and len(seen) == 2 and seen[0] == sp.sympify(E) and seen[1] == sp.S.Zero
+        return Case([sp.Integer(0 if ok else 1)])
+
     @law("apply/applies-the-function-to-both-sides", [("eq",), ("expr",), ("vector-eq",)], ["solvers.apply"])
     def _(s, g):
         sy, env, k = setup(g)
